@@ -15,6 +15,8 @@
 
     output:  #<tag> <db|-> <cmd> <hexargs…>      one line per target request
              #<tag> sp k=<k> off=<o> dbs=<d,…|->   per crash prefix
+             #<tag> mem off=<o> db=<d>             resume=0 only: the in-memory position at the end of the
+                                                   run (Model/SenderMem.lean runM, started at (start, 0))
              #<tag> end
 
     hist tag=<n> | <step> | <step> …   (C07, ALL writers of the position: Model/PositionWriters.lean)
@@ -26,6 +28,7 @@
              #<tag> end
 -/
 import GunYu.Model.Sender
+import GunYu.Model.SenderMem
 import GunYu.Model.Target
 import GunYu.Model.PositionWriters
 import GunYu.Gen.FilterConsts
@@ -298,7 +301,13 @@ def handle : List String → Option (List String)
       let (o, dbs) := startPoint t
       let ds := if dbs.isEmpty then "-" else String.intercalate "," ((dbs.mergeSort (· ≤ ·)).map toString)
       s!"{tag} sp k={k} off={o} dbs={ds}")
-    some (lines ++ sps ++ [s!"{tag} end"])
+    -- the in-memory position (resume off): checkpointInMem.Offset / checkpointInMemDb after the run; the
+    -- harness starts the run with (start, 0), what setCheckpoint leaves at the end of a full sync
+    let mem : List String :=
+      if sc.resume then [] else
+        let m := runM sc initS { off := parseIntS (kv toks "start"), db := 0 } evs
+        [s!"{tag} mem off={m.off} db={m.db}"]
+    some (lines ++ sps ++ mem ++ [s!"{tag} end"])
   | _ => none
 
 end GunYu.Drive.Sender
